@@ -283,7 +283,7 @@ func (c *sbCase) program() (code []byte, opPC int, vals []uint64) {
 	d := c.depth
 	opPC = 3 * d
 	dest := uint64(opPC + 1 + len(c.imm)) // the JUMPDEST after the instruction
-	var benign []uint64                    // operands, top first; default 0
+	var benign []uint64                   // operands, top first; default 0
 	switch c.op {
 	case proggen.JUMP:
 		benign = []uint64{dest}
